@@ -6,7 +6,7 @@ namespace Driver.Watch
 def fsOfName (n : String) : Option FsOp :=
   match n with
   | "writeInPlace" | "writeViaTemp" | "rewrite" | "unlink" | "renameAway" | "writeBad" => some .writeSpec
-  | "moveIn" | "linkIn" | "creatEmpty" | "moveInOld" | "linkInOld" => some .moveIn
+  | "moveIn" | "linkIn" | "creatEmpty" | "moveInOld" | "linkInOld" | "replaceKeepStat" => some .moveIn
   | "tempFile" => some .tempFile
   | "rmdir" => some .rmdir
   | "mkdir" => some .mkdir
